@@ -2,8 +2,9 @@
    Only statements; every proof is `exact <lemma of Proofs/Paths.v / Proofs/DistanceFloyd.v>`.
    [wl L s mid t] is Some (total length) exactly when s -> mid... -> t moves only along existing connections. *)
 From Coq Require Import QArith List Arith ZArith Lia.
-From BCT Require Import Base.Mat Base.ListX Model.Distance Model.Paths
-  Proofs.DistanceBase Proofs.DistanceFloyd Proofs.DistanceOther Proofs.Paths Proofs.PathsFull.
+From BCT Require Import Base.Mat Base.ListX Model.Distance Model.Paths Model.PathsExt
+  Proofs.DistanceBase Proofs.DistanceFloyd Proofs.DistanceOther Proofs.Paths Proofs.PathsFull
+  Proofs.DistanceHopsPath Proofs.PathsNav.
 Import ListNotations.
 Open Scope Q_scope.
 
@@ -108,6 +109,59 @@ Theorem C12_nav_step_greedy : forall n (L D : mat Q) target c v0 rr, neighbors n
   In next (neighbors n L c) /\ forall v, In v (neighbors n L c) -> D target next <= D target v.
 Proof. exact nav_step_greedy. Qed.
 
+(* ---------- added: strict paths, the greedy rule on the returned path, max_hops, totality on undirected L, n <= 1 ---------- *)
+(* the returned sequence never repeats a node (zero-length connections allowed) *)
+Theorem C12_retrieve_nodup : forall n L, nonneg n L ->
+  forall s t x, (s < n)%nat -> (t < n)%nat -> s <> t -> spl (floyd n L) s t = Some x ->
+  NoDup (retrieve s t (hops (floyd n L)) (pmat (floyd n L))).
+Proof. exact retrieve_nodup. Qed.
+
+(* [greedy_step n L D target a b]: b is a neighbour of a, no neighbour of a is closer to the target, and among the
+   closest ones b has the smallest index (np.argmin = first minimum).  EVERY consecutive pair of EVERY returned node
+   list, successful or failed, is such a step: the step lemma threaded through the loop to the result *)
+Theorem C12_nav_path_greedy : forall n L D mh fuel i j r, nav_pair fuel n L D mh i j = Some r ->
+  forall k a b, nth_error (nv_path r) k = Some a -> nth_error (nv_path r) (S k) = Some b ->
+  In b (neighbors n L a) /\
+  (forall v, In v (neighbors n L a) -> D j b <= D j v) /\
+  (forall v, In v (neighbors n L a) -> v <> b -> D j b < D j v \/ (D j b <= D j v /\ (b < v)%nat)).
+Proof. exact nav_path_greedy. Qed.
+
+(* max_hops = m: `pl_bin > max_hops` is tested BEFORE the increment, so a successful navigation has at most m+1 hops
+   (not m, as the docstring "Limits the maximum number of hops" suggests; same as BCT's navigation_wu.m).  The bound is attained: *)
+Theorem C12_nav_hops_bound : forall n L D m fuel i j r b,
+  nav_pair fuel n L D (Some m) i j = Some r -> nv_bin r = Some b -> (b <= m + 1)%nat.
+Proof. exact nav_hops_bound. Qed.
+
+Example C12_nav_max_hops_plus_one :
+  exists r, nav_pair 10 3 (of_rows 0 [[0;1;0];[1;0;1];[0;1;0]]) (of_rows 0 [[0;1;2];[1;0;1];[2;1;0]]) (Some 1%nat) 0 2 = Some r /\
+            nv_path r = [0;1;2]%nat /\ nv_bin r = Some 2%nat.
+Proof. eexists. vm_compute. repeat split. Qed.
+
+(* TOTALITY for the default max_hops=None on the routine's documented domain: when the SUPPORT of L is symmetric
+   (undirected; the values and D may be anything) every navigation stops within 2n steps — the model with fuel 2n
+   returns, so "whenever the run returns" in the theorems above is "always" there.  (On directed input the real loop can
+   run forever: 0 -> 1 -> 2 -> 0 with a far-away target.) *)
+Theorem C12_nav_returns_und : forall n L D, symsupp n L -> forall fuel, (2 * n <= fuel)%nat ->
+  exists res, navigation_wu fuel n L D None = Some res.
+Proof. exact navigation_wu_total_und. Qed.
+
+Example C12_nav_returns_und_nonvacuous :
+  symsupp 3 (of_rows 0 [[0;1;0];[2;5;1];[0;3;0]]) /\
+  exists sr rs, navigation_wu 6 3 (of_rows 0 [[0;1;0];[2;5;1];[0;3;0]]) (of_rows 0 [[0;1;2];[1;0;1];[2;1;0]]) None = Some (sr, rs) /\ sr == 1.
+Proof.
+  split.
+  - intros i j Hi Hj. do 3 (destruct i as [|i]; [do 3 (destruct j as [|j]; [vm_compute; split; intros H; try reflexivity; try discriminate|]); lia|]). lia.
+  - eexists. eexists. split; [vm_compute; reflexivity|]. reflexivity.
+Qed.
+
+(* the top level with the final division: n <= 1 raises (ZeroDivisionError) and nothing else does; for n >= 2 the outcome
+   is the pair (sr, results) of navigation_wu *)
+Theorem C12_nav_raises_iff_small : forall fuel n L D mh,
+  (navigation_wu_x fuel n L D mh = NavRaises <-> (n <= 1)%nat) /\
+  (forall sr rs, navigation_wu_x fuel n L D mh = NavDone sr rs <->
+                 ((2 <= n)%nat /\ navigation_wu fuel n L D mh = Some (sr, rs))).
+Proof. intros. split; [apply navigation_wu_x_raises|intros; apply navigation_wu_x_done]. Qed.
+
 (* non-vacuity: tie-heavy directed lengths; 0->3 has two shortest alternatives, node 4 unreachable *)
 Example C12_nonvacuous :
   let L := lengths (fun x => x) TNone (of_rows 0 [[0;1;2;0;0];[0;0;0;2;0];[0;0;0;1;0];[3;0;0;0;0];[0;0;0;0;0]]) in
@@ -144,3 +198,8 @@ Print Assumptions C12_nav_returns.
 Print Assumptions C12_nav_all_valid.
 Print Assumptions C12_nav_success_ratio.
 Print Assumptions C12_nav_step_greedy.
+Print Assumptions C12_retrieve_nodup.
+Print Assumptions C12_nav_path_greedy.
+Print Assumptions C12_nav_hops_bound.
+Print Assumptions C12_nav_returns_und.
+Print Assumptions C12_nav_raises_iff_small.
